@@ -38,6 +38,12 @@ def facts_controls(ctx, rep):
     r2 = "unlink" in cg.reachable([mod.fn("entry_mut").name])
     if r1 or not r2:
         _fail(rep, "callgraph", "reachability control: ro=%s mut=%s" % (r1, r2))
+    from .props.c08 import end_index_accesses
+    got = {}
+    for i, c, ok in end_index_accesses(ctx, mod):
+        got.setdefault(i.fn.cname, []).append(ok)
+    if not (got.get("strip_bad") and not any(got["strip_bad"]) and got.get("strip_ok") and all(got["strip_ok"])):
+        _fail(rep, "end-index", "end-indexed string control: %s" % got)
     rep.extra.setdefault("positive_controls", {})["facts/paths/callgraph"] = "fired on the violating twins, silent on the conforming ones"
 
 
